@@ -18,7 +18,7 @@ CONFIGS["C24"] = dict(
     race_quick=dict(runs=400, per_proc=50, budget_s=120),
     race_thorough=dict(runs=20000, per_proc=400, budget_s=900),
     det_seeds=32,
-    rule="histories of 8-37 operations (login of own user / non-existent user with right or wrong password in 3 spellings; "
+    rule="time advances in whole seconds around every threshold and, one operation in twelve, in milliseconds into the last fraction of a second of a lockout / just past its end; histories of 8-37 operations (login of own user / non-existent user with right or wrong password in 3 spellings; "
          "boundary-biased time advances from 1 s to 1 day); non-trivial = >=3 login attempts; distinct = distinct (scheduler "
          "decisions, observed history) hash",
     real=["router.ServeHTTP, Session.Authenticate, CheckRateLimit/RecordFailure/RecordSuccess, pruner goroutine", "auth.ValidatePassword (bcrypt)"],
@@ -48,7 +48,7 @@ CONFIGS["C21"] = dict(
     quick=dict(runs=1500, per_proc=100, budget_s=240),
     thorough=dict(runs=100000, per_proc=1000, budget_s=1500),
     det_seeds=24,
-    rule="histories of 3-8 phases x 1-4 operations over 3 token slots and 2 users, lifetimes 30 s / 15 m / 2 h, cache size "
+    rule="one phase in eight is followed by a server restart (every cache and the store handle lost, the revocation store file survives; one restart in three with a different token key, after which every earlier token must be refused); histories of 3-8 phases x 1-4 operations over 3 token slots and 2 users, lifetimes 30 s / 15 m / 2 h, cache size "
          "knob 1/2/1000; non-trivial = >=2 validations; distinct = distinct (scheduler decisions, validation outcomes) hash",
     real=["tokens.New/Validate/Unwrap/Blacklist/Delete/Flush", "resources store on a real SQLite file (modernc)", "caches incl. sweepers",
           "router.ServeHTTP + Session.Authenticate (token branch)", "util.Encrypt/Decrypt (AES-GCM, Argon2id)"],
@@ -56,7 +56,7 @@ CONFIGS["C21"] = dict(
              "time: synctest fake clock", "sync: scheduling shim"],
     assumptions=["the server token key does not change during a history", "validations that overlap a change of the same token's state within one phase are not judged (either outcome legal)",
                  "an attempt exactly at the expiry instant is not judged"],
-    required_probes=["validations"],
+    required_probes=["restarts", "restarts_with_new_key", "validations"],
 )
 
 CONFIGS["C22"] = dict(
@@ -76,16 +76,18 @@ CONFIGS["C22"] = dict(
     quick=dict(runs=3000, per_proc=200, budget_s=240),
     thorough=dict(runs=200000, per_proc=2000, budget_s=1500),
     det_seeds=24,
-    rule="histories of 3-9 phases x 1-3 operations (mint/present/revoke/un-revoke/purge/rotate/withdraw-key/IdP up-down-slow) over 4 token "
+    rule="half of the runs start through the real oauth.Initialize (settings, OIDC discovery against the simulated IdP, initial key-set load), half with the "
+         "configuration set directly; one run in four ends with a revocation-race scenario (first validation of a fresh token concurrent with the revocation of its id, "
+         "then two more presentations); histories of 3-9 phases x 1-3 operations (mint/present/revoke/un-revoke/purge/rotate/withdraw-key/IdP up-down-slow) over 4 token "
          "slots with 1-2 client tasks, boundary-biased time advances (30 s refresh throttle, 5 m / 1 h TTL, 10 m / 2 h token "
          "lifetimes); one run in four ends with a key-withdrawal scenario (the IdP stops publishing a key, the "
          "key-set cache runs out and is refreshed, a NEW token signed with the withdrawn key is presented); non-trivial = >=2 presentations; distinct = distinct (scheduler decisions, outcomes) hash",
     real=["oauth.ValidateJWT, parseAndValidateJWT, selectVerificationKey, JWKS cache/refresh/throttle", "golang-jwt/v5", "tokens revocation list on SQLite", "caches"],
-    stubbed=["identity provider: simulated node behind http.DefaultTransport (existing seam)", "oauth.Initialize is bypassed: configuration and JWKS URL are set directly (discovery not exercised)",
+    stubbed=["identity provider: simulated node behind http.DefaultTransport (existing seam)", "the simulated IdP never withdraws its last key (the server treats an empty key set as a failed fetch)",
              "time: synctest fake clock", "sync: scheduling shim"],
     assumptions=["acceptance is only demanded for tokens whose kid names a key published from the start and never withdrawn, while the IdP is reachable",
                  "a withdrawn key counts as 'not published' only once the IdP has delivered a key set without it to this server and for tokens minted after that delivery (earlier verifications may legitimately be cached)"],
-    required_probes=["presentations", "accepted", "idp-unreachable-or-timeout", "withdrawn_key_presentations_judged"],
+    required_probes=["presentations", "accepted", "idp-unreachable-or-timeout", "withdrawn_key_presentations_judged", "initialized_through_discovery"],
 )
 
 BCRYPT_KNOB = ["internal/server/auth/hash.go:bcryptCost=4"]
